@@ -555,11 +555,15 @@ def _nesting(ctx):
     for e in container_events(spec.node, sT, CFG(spec.node)):
         if e.kind == "store" and e.key[0] == "const":
             attrs[e.key[1]] = e.value
-        elif e.kind == "update" and len(e.args) == 1 and \
-                e.args[0][0] == "dict":
-            for k, v in _dict_items(e.args[0]):
-                if k[0] == "const":
-                    attrs[k[1]] = v
+        elif e.kind == "update":
+            # d.update({...}) / d.update(k=v, ...) / both
+            if len(e.args) == 1 and e.args[0][0] == "dict":
+                for k, v in _dict_items(e.args[0]):
+                    if k[0] == "const":
+                        attrs[k[1]] = v
+            for k, v in dict(e.kwargs or {}).items():
+                if k != "**":
+                    attrs[k] = v
     SP = ("param", spec.params[0])
 
     def attr_of(conv, name):
